@@ -33,6 +33,7 @@ void launch_run(int tier, long cfg)
   hx_desc("%s", key);
   snprintf(key, sizeof key, "h_c03_cxx|env=%s", behavior ? "empty" : "extend");
   hx_begin();
+  snprintf(S->crashkey, sizeof S->crashkey, "%s", key);
   std::vector<std::pair<std::string, std::string>> extra;
   std::vector<std::string> want;
   for (int i = 0; i < n; i++) {
